@@ -521,17 +521,18 @@ from vf.rt import MODE as _MODE  # noqa: E402
 
 MODE_QUICK = _MODE["tier"] != "thorough"
 ENDINGS = ["WINDOW_UPDATE (stream and connection)", "RST_STREAM", "client EOF", "connection reset", "nothing (the client stays silent)", "WINDOW_UPDATE on the connection only",
-           "WINDOW_UPDATE on the stream, then (in a later read) on the connection"]
+           "WINDOW_UPDATE on the stream, then (in a later read) on the connection",
+           "the client stops reading after the response head, half-closes and never reads again"]
 
 
 @harness(
     "C08",
-    dom={"flavour": (0, 1), "wi": (0, 3), "ci": (0, 2), "ending": (0, 6), "sibling": "bool"},
+    dom={"flavour": (0, 1), "wi": (0, 3), "ci": (0, 2), "ending": (0, 7), "sibling": "bool"},
     split={"flavour": "each", "ending": "each"},
     witnesses=[{"flavour": 0, "wi": 0, "ci": 1, "ending": 0, "sibling": True}, {"flavour": 1, "wi": 1, "ci": 2, "ending": 1, "sibling": False}],
     budget={"quick": 200, "thorough": 900},
     per_path=240,
-    bounds="HTTP/2 response of about 240 kB (thorough 600 kB) written in chunks of {8 kB, 48 kB, 100 kB} to a client whose stream window is {0, 100, 65535, 1000000 (the connection window is then the limit)}, optionally next to a small sibling stream; then one of 7 endings (window re-opened on both levels / on the connection only / on the stream first and the connection in a later read, RST_STREAM, EOF, reset, silence); both workers",
+    bounds="HTTP/2 response of about 240 kB (thorough 600 kB) written in chunks of {8 kB, 48 kB, 100 kB} to a client whose stream window is {0, 100, 65535, 1000000 (the connection window is then the limit)}, optionally next to a small sibling stream; then one of 8 endings (the client stops reading mid-response and half-closes, window re-opened on both levels / on the connection only / on the stream first and the connection in a later read, RST_STREAM, EOF, reset, silence); both workers",
     encodes=["hypercorn/protocol/h2.py::StreamBuffer.push", "hypercorn/protocol/h2.py::H2Protocol._send_data", "hypercorn/protocol/h2.py::H2Protocol._handle_events", "hypercorn/protocol/h2.py::H2Protocol.handle",
              "hypercorn/asyncio/tcp_server.py::TCPServer.protocol_send", "hypercorn/trio/tcp_server.py::TCPServer.protocol_send", "hypercorn/trio/worker_context.py::EventWrapper.clear"],
     stubs=["tier C runtimes (virtual asyncio loop / trio MockClock)", "client frames are precomputed with the h2 client library (it needs no server input to grant window)", "the session body runs un-traced (concrete execution per solver-chosen choice vector): byte-level symbolic models of 100 kB buffers are out of reach"],
@@ -549,7 +550,7 @@ def h2_backpressure_session(flavour: int, wi: int, ci: int, ending: int, sibling
     flavour = "asyncio" if conc(flavour, 0, 1) == 0 else "trio"
     window = [0, 100, 65535, 1000000][conc(wi, 0, 3)]
     chunk = [8192, 49152, 100000][conc(ci, 0, 2)]
-    ending = conc(ending, 0, 6)
+    ending = conc(ending, 0, 7)
     sibling = True if sibling else False
     TOTAL = 240000 if MODE_QUICK else 600000
     n_chunks = (TOTAL + chunk - 1) // chunk
@@ -578,7 +579,13 @@ def h2_backpressure_session(flavour: int, wi: int, ci: int, ending: int, sibling
 
     c = H2Client(initial_window=window)
     c.request(1, b"GET", b"/big", end_stream=True)
-    acts = [("feed", c.take()), ("sleep", 1.0)]
+    if ending == 7:
+        if sibling or window < 65535:
+            return done(True, skipped="client that stops reading: one stream, windows that let DATA flow")
+        # the server's writes: SETTINGS, SETTINGS ack, response HEADERS, then DATA - the client reads the first three
+        acts = [("pause_at_write", 3), ("feed", c.take()), ("sleep", 1.0)]
+    else:
+        acts = [("feed", c.take()), ("sleep", 1.0)]
     marks = {}
     acts.append(("call", lambda env: marks.__setitem__("stalled", dict(factory.log, t=env.now()))))
     if sibling:
@@ -605,6 +612,8 @@ def h2_backpressure_session(flavour: int, wi: int, ci: int, ending: int, sibling
     elif ending == 5:
         c.window_update(0, 2000000)
         acts.append(("feed", c.take()))
+    elif ending == 7:
+        acts.append(("eof",))
     elif ending == 6:
         c.window_update(1, 2000000)
         acts += [("feed", c.take()), ("sleep", 0.5)]
@@ -624,7 +633,7 @@ def h2_backpressure_session(flavour: int, wi: int, ci: int, ending: int, sibling
     written = len(o.streams[1].data) if 1 in o.streams else 0
     stalled = marks.get("stalled") or {"accepted": 0}
     why = ""
-    bound = 32768 + 2 * chunk
+    bound = 32768 + 2 * chunk + (16384 if ending == 7 else 0)  # ending 7: plus the one frame sitting in the transport
     # the windows: stream `window`, connection 65535
     deliverable = min(window, 65535)
     if obs["handler_error"] is not None:
@@ -635,6 +644,8 @@ def h2_backpressure_session(flavour: int, wi: int, ci: int, ending: int, sibling
         why = f"while the client accepted nothing more the server held {stalled['accepted'] - min(written, deliverable)} bytes for the stream (bound {bound})"
     elif sibling and not log["sib_done"]:
         why = "the stalled stream blocked its sibling"
+    elif ending == 7 and not log["done"]:
+        why = f"the client half-closed while the server's write was parked, but the application is still blocked in send() after accepting {log['accepted']} bytes"
     elif ending in (0, 1, 2, 3) and not log["done"] and not (ending in (1, 2, 3) and log["accepted"] < TOTAL and _app_ended(obs, log)):
         why = f"pressure ended by '{ENDINGS[ending]}' but the application is still blocked in send() after accepting {log['accepted']} bytes"
     elif (ending in (0, 6) or (ending == 5 and window == 1000000)) and not log["done"]:
